@@ -405,12 +405,9 @@ Definition good_member (m : member) : bool :=
 Definition semi_good_member (m : member) : bool :=
   validate_key (mkey m) && valid_string (mval m) && forallb semi_good_prop (mprops m).
 
-(** What parsing a serialised property list gives back: the properties that
-    have a string form; if there are none but the list was not empty, the one
-    zero property that the trailing ';' stands for. *)
-Definition squash (ps : list property) : list property :=
-  if is_nil ps then []
-  else let r := filter good_prop ps in if is_nil r then [zero_property] else r.
+(** What parsing a serialised property list gives back: the properties that have a string form (a
+    lone trailing ';' stands for nothing since fix 72863c6). *)
+Definition squash (ps : list property) : list property := filter good_prop ps.
 Definition squash_member (m : member) : member := (mkey m, mval m, squash (mprops m)).
 
 Lemma valid_string_bytes_ok v : valid_string v = true -> bytes_ok v.
@@ -505,7 +502,9 @@ Lemma parse_props_strings ps :
   forallb good_prop ps = true -> parse_props (map prop_string ps) = Some ps.
 Proof.
   induction ps as [|p ps IH]; [reflexivity|]. cbn [forallb map parse_props]. intro H.
-  apply andb_true_iff in H as [Hp Hps]. now rewrite parse_property_string, IH.
+  apply andb_true_iff in H as [Hp Hps]. pose proof (prop_string_good_nonempty _ Hp) as Hn.
+  pose proof (parse_property_string _ Hp) as Hpp.
+  destruct (prop_string p) as [|c0 s0]; [congruence|]. now rewrite Hpp, IH.
 Qed.
 
 Lemma filter_good_good ps : forallb good_prop (filter good_prop ps) = true.
@@ -530,13 +529,13 @@ Qed.
 Lemma parse_props_string ps :
   forallb semi_good_prop ps = true ->
   parse_props (split SEMI (props_string ps)) =
-  Some (let r := filter good_prop ps in if is_nil r then [zero_property] else r).
+  Some (filter good_prop ps).
 Proof.
   intro H. unfold props_string. rewrite (prop_strings_filter _ H).
   pose proof (filter_good_good ps) as Hg.
   destruct (filter good_prop ps) as [|p r] eqn:E; [reflexivity|].
   rewrite split_join.
-  - rewrite parse_props_strings by exact Hg. reflexivity.
+  - now rewrite parse_props_strings by exact Hg.
   - discriminate.
   - clear E. revert Hg. generalize (p :: r). intro l. induction l as [|x l IH]; [reflexivity|].
     cbn. intro Hx. apply andb_true_iff in Hx as [Hx Hl].
@@ -612,10 +611,10 @@ Proof.
     unfold validate_value. rewrite escape_value_chars by exact Hb. cbn [negb].
     rewrite unescape_escape by exact Hb. now rewrite replace_invalid_id. }
   unfold squash. destruct ps as [|p ps'].
-  - cbn [is_nil]. rewrite app_nil_r.
+  - cbn [is_nil filter]. rewrite app_nil_r.
     rewrite cut_none by (now apply kv_no_semi). cbv beta iota. apply Htail.
   - cbn [is_nil]. rewrite cut_app_sep by (now apply kv_no_semi). cbv beta iota.
-    rewrite parse_props_string by exact Hps. cbv zeta. apply Htail.
+    rewrite parse_props_string by exact Hps. apply Htail.
 Qed.
 
 Lemma member_string_no_comma m :
@@ -896,11 +895,8 @@ Qed.
 (** With properties that all have a string form nothing is squashed. *)
 Lemma squash_good ps : forallb good_prop ps = true -> squash ps = ps.
 Proof.
-  intro H. unfold squash. destruct ps as [|p ps]; [reflexivity|]. cbn [is_nil].
-  assert (E : filter good_prop (p :: ps) = p :: ps).
-  { revert H. generalize (p :: ps). intro l. induction l as [|x l IH]; [reflexivity|].
-    cbn. intro H. apply andb_true_iff in H as [H1 H2]. now rewrite H1, IH. }
-  now rewrite E.
+  unfold squash. induction ps as [|x l IH]; [reflexivity|].
+  cbn. intro H. apply andb_true_iff in H as [H1 H2]. now rewrite H1, IH.
 Qed.
 
 Lemma good_semi_good m : good_member m = true -> semi_good_member m = true.
@@ -1002,14 +998,36 @@ Proof.
     now rewrite Hkey, replace_invalid_valid.
 Qed.
 
-Lemma parse_props_semi_good l : forall ps,
-  parse_props l = Some ps -> forallb semi_good_prop ps = true.
+Lemma parse_property_good s p : s <> [] -> parse_property s = Some p -> good_prop p = true.
+Proof.
+  intros Hs H. pose proof (parse_property_semi_good _ _ H) as Hg. unfold semi_good_prop in Hg.
+  destruct (good_prop p) eqn:E; [reflexivity|]. cbn in Hg.
+  (* the zero property only comes from the empty piece *)
+  unfold parse_property in H. destruct s as [|c0 s0]; [congruence|].
+  destruct (span key_char (skip_space (c0 :: s0))) as [key s2]. destruct key as [|k0 k']; [discriminate|].
+  destruct (skip_space s2) as [|c s4].
+  - inversion H; subst. discriminate.
+  - destruct (negb (c =? EQUALS)); [discriminate|].
+    destruct (span value_char (skip_space s4)) as [raw s6]. destruct (skip_space s6); [|discriminate].
+    destruct (path_unescape raw); [|discriminate]. inversion H; subst. discriminate.
+Qed.
+
+Lemma parse_props_good l : forall ps, parse_props l = Some ps -> forallb good_prop ps = true.
 Proof.
   induction l as [|x l IH]; cbn [parse_props]; intros ps H.
   - inversion H; reflexivity.
-  - destruct (parse_property x) as [p|] eqn:Ep; [|discriminate].
+  - destruct x as [|c0 x0]; [now apply IH|].
+    destruct (parse_property (c0 :: x0)) as [p|] eqn:Ep; [|discriminate].
     destruct (parse_props l) as [ps'|]; [|discriminate]. inversion H; subst.
-    cbn. now rewrite (parse_property_semi_good _ _ Ep), IH.
+    assert (Hne : c0 :: x0 <> []) by discriminate.
+    cbn. rewrite (parse_property_good _ _ Hne Ep). now apply IH.
+Qed.
+
+Lemma parse_props_semi_good l : forall ps,
+  parse_props l = Some ps -> forallb semi_good_prop ps = true.
+Proof.
+  intros ps H. apply (forallb_impl good_prop); [|now apply (parse_props_good l)].
+  intros p Hp. unfold semi_good_prop. now rewrite Hp.
 Qed.
 
 Lemma parse_member_inv p m :
@@ -1160,15 +1178,13 @@ Qed.
 Lemma filter_real_squash ps :
   forallb semi_good_prop ps = true -> filter real_prop (squash ps) = filter real_prop ps.
 Proof.
-  intro H. unfold squash. destruct ps as [|p ps']; [reflexivity|]. cbn [is_nil].
-  set (l := p :: ps') in *.
-  assert (E : filter real_prop l = filter good_prop l).
+  intro H. unfold squash.
+  assert (E : filter real_prop ps = filter good_prop ps).
   { apply filter_ext_in. intros a Ha. apply real_is_good. rewrite forallb_forall in H. now apply H. }
-  rewrite E. destruct (filter good_prop l) as [|q r] eqn:Ef; [reflexivity|]. cbn [is_nil].
-  rewrite <- Ef. transitivity (filter good_prop (filter good_prop l)).
+  rewrite E. transitivity (filter good_prop (filter good_prop ps)).
   - apply filter_ext_in. intros a Ha. apply real_is_good.
     apply filter_In in Ha as [_ Ha]. unfold semi_good_prop. now rewrite Ha.
-  - clear. induction l as [|x l IH]; [reflexivity|]. cbn. destruct (good_prop x) eqn:Ex; [|exact IH].
+  - clear. induction ps as [|x l IH]; [reflexivity|]. cbn. destruct (good_prop x) eqn:Ex; [|exact IH].
     cbn. now rewrite Ex, IH.
 Qed.
 
@@ -1499,4 +1515,78 @@ Lemma extract_into_replaces (parent b : list member) :
 Proof.
   intros Hu Ha Hn Hl Hne. destruct (roundtrip b Hu Ha Hn Hl) as [_ He].
   unfold extract_into. rewrite He. destruct b; [congruence|]. repeat split.
+Qed.
+
+(** ** re-parsing, strictly (the parser no longer keeps zero-valued entries: fix 72863c6) *)
+Lemma parse_member_good p m : parse_member p = Some m -> good_member m = true.
+Proof.
+  unfold parse_member. destruct (MAX_BYTES_PER_MEMBER <? lenN p); [discriminate|].
+  destruct (cut SEMI p) as [[kv props_s] found].
+  destruct (if found then parse_props (split SEMI props_s) else Some []) as [ps|] eqn:Ep; [|discriminate].
+  assert (Hps : forallb good_prop ps = true).
+  { destruct found; [now apply (parse_props_good _ _ Ep)|]. inversion Ep; reflexivity. }
+  destruct (cut EQUALS kv) as [[k v] found2]. destruct found2; cbn [negb]; [|discriminate].
+  destruct (validate_key (trim_space k)) eqn:Ek; cbn [negb]; [|discriminate].
+  destruct (validate_value (trim_space v)); cbn [negb]; [|discriminate].
+  destruct (path_unescape (trim_space v)) as [u|]; [|discriminate].
+  intro H; inversion H; subst. unfold good_member, mkey, mval, mprops. cbn [fst snd].
+  now rewrite Ek, replace_invalid_valid, Hps.
+Qed.
+
+Lemma parse_good s b : parse s = Some b -> forallb good_member b = true.
+Proof.
+  intro H. apply parse_inv in H as [_ [_ [[_ ->]|[ms [H1 ->]]]]]; [reflexivity|].
+  apply forallb_fold; [reflexivity|]. apply map_some_inv in H1.
+  induction H1 as [|p m l ms Hp _ IH]; [reflexivity|]. cbn. now rewrite (parse_member_good _ _ Hp), IH.
+Qed.
+
+(** Every baggage that Parse produces re-serialises (within the limits) to a header that parses back to exactly it. *)
+Lemma reparse_strict s b :
+  parse s = Some b -> header_within_limits (baggage_string b) = true ->
+  parse (baggage_string b) = Some b /\ map reser_member b = b.
+Proof.
+  intros H Hl. pose proof (parse_good _ _ H) as Hg. pose proof (parse_semi_good _ _ H) as Hs.
+  pose proof (parse_unique _ _ H) as Hu. pose proof (parse_inv _ _ H) as [_ [Hn _]].
+  pose proof (limits_split _ Hl) as [Hl1 Hl2]. split.
+  - rewrite parse_baggage_string by assumption. now rewrite map_squash_good.
+  - rewrite <- (map_squash_good b Hg) at 2. clear -Hs. induction b as [|m b IH]; [reflexivity|].
+    cbn [forallb map] in *. apply andb_true_iff in Hs as [H1 H2]. rewrite IH by exact H2. f_equal.
+    destruct m as [[k v] ps]. unfold reser_member, squash_member, squash, resurvive, key_of, value_of, props_of, mkey, mval, mprops.
+    cbn [fst snd]. f_equal. apply filter_ext_in. intros a Ha. apply real_is_good.
+    unfold semi_good_member, mprops in H1. cbn [snd] in H1. apply andb_true_iff in H1 as [_ H1].
+    rewrite forallb_forall in H1. now apply H1.
+Qed.
+
+(** The parser as it was before the fix violates this: F-C11-3 (fixed). *)
+Lemma reparse_strict_old_refuted :
+  exists s b b', parse_old s = Some b /\ header_within_limits (baggage_string b) = true /\
+                 parse_old (baggage_string b) = Some b' /\ b' <> b.
+Proof.
+  exists (str "k=v;;p"). eexists. eexists. split; [vm_compute; reflexivity|].
+  split; [vm_compute; reflexivity|]. split; [vm_compute; reflexivity|discriminate].
+Qed.
+
+(** The percent-encoding constructor agrees with the raw one on escaped values. *)
+Lemma new_member_escape k v ps :
+  bytes_ok v -> validate_key k = true -> new_member k (value_escape v) ps = new_member_raw k v ps.
+Proof.
+  intros Hb Hk. unfold new_member. unfold validate_value. rewrite Hk, escape_value_chars by exact Hb.
+  cbn [andb]. now rewrite unescape_escape.
+Qed.
+
+Lemma new_member_inv k v ps m :
+  new_member k v ps = Some m ->
+  exists u, path_unescape v = Some u /\ m = (k, u, ps) /\ token k = true /\ utf8_b u = true /\
+            forallb prop_valid ps = true /\ forallb baggage_octet v = true.
+Proof.
+  unfold new_member. destruct (validate_key k) eqn:Hk; cbn [andb]; [|discriminate].
+  destruct (validate_value v) eqn:Hv; [|discriminate].
+  destruct (path_unescape v) as [u|] eqn:Hu; [|discriminate].
+  unfold new_member_raw. destruct (valid_name k); cbn [andb]; [|discriminate].
+  destruct (valid_string u) eqn:Hs; cbn [andb]; [|discriminate].
+  destruct (forallb prop_valid ps) eqn:Hp; [|discriminate].
+  intro H; inversion H; subst. exists u.
+  split; [reflexivity|]. split; [reflexivity|]. split; [now rewrite <- validate_key_token|].
+  split; [now rewrite <- valid_string_utf8_b|]. split; [reflexivity|].
+  unfold validate_value in Hv. rewrite <- Hv. apply forallb_ext_eq. intro c. symmetry. apply value_char_octet.
 Qed.
